@@ -811,6 +811,14 @@ sock_close(nni_sock *s, bool device)
 	}
 	nni_mtx_unlock(&sock_lk);
 
+	// Operations that were submitted while we were shutting down (their
+	// callers held a reference) may have been queued after the queues
+	// and the protocol were closed.  Nobody can get in any more, so
+	// flush once more or they would stay pending forever.
+	nni_msgq_close(s->s_urq);
+	nni_msgq_close(s->s_uwq);
+	s->s_sock_ops.sock_close(s->s_data);
+
 	// Because we already shut everything down before, we should not
 	// have any child objects.
 	nni_mtx_lock(&s->s_mx);
